@@ -789,4 +789,181 @@ theorem leftover_rel : ∀ (fuel : Nat) (s : State) (size : Nat), Rel s (leftove
         (size - slotSize k)
       exact ⟨h1.1, h1.2⟩
 
+theorem allocReusable_rel {s : State} {size : Nat} {s' : State} {r : Option Loc} {asz : Nat}
+    (h : allocReusable s size = (s', r, asz)) : Rel s s' := by
+  unfold allocReusable at h
+  by_cases hidx : slotIndex size < kSlotCount
+  · rw [if_pos hidx] at h
+    simp only [] at h
+    split at h
+    · cases h; exact ⟨rfl, fun _ h => h⟩
+    · by_cases hrem : s.remaining ≥ slotSize (slotIndex size)
+      · rw [if_pos hrem] at h
+        cases h; exact ⟨rfl, fun _ h => h⟩
+      · rw [if_neg hrem] at h
+        generalize hq : allocOneshotSlow (leftover 64 s s.remaining) (slotSize (slotIndex size)) = q at h
+        have hL := leftover_rel 64 s s.remaining
+        rcases q with ⟨s2, _ | p⟩
+        · simp only [Prod.mk.injEq] at h
+          obtain ⟨rfl, _, _⟩ := h
+          exact hL.trans (slow_rel hq)
+        · simp only [Prod.mk.injEq] at h
+          obtain ⟨rfl, _, _⟩ := h
+          exact hL.trans (slow_rel hq)
+  · rw [if_neg hidx] at h
+    by_cases h1 : size ≥ u64 - 1 - 24
+    · rw [if_pos h1] at h; cases h; exact Rel.refl s
+    · rw [if_neg h1] at h
+      by_cases h2 : size + 24 > s.mallocMax
+      · rw [if_pos h2] at h; cases h; exact Rel.refl s
+      · rw [if_neg h2] at h
+        cases h
+        exact ⟨rfl, fun _ h => h⟩
+
+theorem freeReusable_rel (s : State) (p : Loc) (sz : Nat) : Rel s (freeReusable s p sz) := by
+  unfold freeReusable
+  by_cases hidx : slotIndex sz < kSlotCount
+  · simp only [if_pos hidx]; exact ⟨rfl, fun _ h => h⟩
+  · simp only [if_neg hidx]
+    cases p with
+    | managed pos off => exact Rel.refl s
+    | dyn id => exact ⟨rfl, fun _ h => h⟩
+
+/-- `hasStatic` never changes along a run and the static block stays the first block of the chain -/
+def StaticInv (z : Nat) (s : State) : Prop :=
+  s.hasStatic = decide (z ≠ 0) ∧ (z ≠ 0 → s.blocks.take 1 = [z - 16])
+
+theorem StaticInv.of_rel {z : Nat} {s s' : State} (h : StaticInv z s) (hr : Rel s s') : StaticInv z s' :=
+  ⟨hr.1.trans h.1, fun hz => hr.2 _ (h.2 hz)⟩
+
+theorem reset_hasStatic (s : State) (hard : Bool) : (Arena.reset s hard).hasStatic = s.hasStatic := by
+  cases hard with
+  | false => simp [Arena.reset]
+  | true =>
+    cases hb : s.blocks with
+    | nil => simp [Arena.reset, hb]
+    | cons b rest => cases hs : s.hasStatic <;> simp [Arena.reset, hb, hs]
+
+theorem reset_blocks (s : State) (hard : Bool) :
+    (Arena.reset s hard).blocks = if hard then (if s.hasStatic then s.blocks.take 1 else []) else s.blocks := by
+  cases hard with
+  | false => simp [Arena.reset]
+  | true =>
+    cases hb : s.blocks with
+    | nil => simp [Arena.reset, hb]
+    | cons b rest => cases hs : s.hasStatic <;> simp [Arena.reset, hb, hs]
+
+theorem StaticInv.reset {z : Nat} {s : State} (h : StaticInv z s) (hard : Bool) :
+    StaticInv z (Arena.reset s hard) := by
+  refine ⟨(reset_hasStatic s hard).trans h.1, fun hz => ?_⟩
+  have hs : s.hasStatic = true := by simp [h.1, hz]
+  have h2 := h.2 hz
+  rw [reset_blocks, hs]
+  cases hard with
+  | false => simpa using h2
+  | true => simp [h2]
+
+theorem StaticInv.step {z : Nat} {s : State} (live : Live) (h : StaticInv z s) (op : AOp) :
+    StaticInv z (step (s, live) op).1 := by
+  cases op with
+  | one size =>
+    simp only [Arena.step]
+    by_cases hc : size % 8 = 0 ∧ 0 < size
+    · rw [if_pos hc]
+      generalize hq : allocOneshot s size = q
+      have hrel : Rel s q.1 := by
+        unfold allocOneshot at hq
+        by_cases hc2 : size > s.remaining
+        · rw [if_pos hc2] at hq
+          exact slow_rel (r := q.2) hq
+        · rw [if_neg hc2] at hq
+          subst hq
+          exact ⟨rfl, fun _ h => h⟩
+      rcases q with ⟨s', _ | p⟩ <;> exact h.of_rel hrel
+    · rw [if_neg hc]; exact h
+  | get k size =>
+    simp only [Arena.step]
+    by_cases hc : 0 < size ∧ findH live (k + 1) = none
+    · rw [if_pos hc]
+      generalize hq : allocReusable s size = q
+      rcases q with ⟨s', _ | p, asz⟩ <;> exact h.of_rel (allocReusable_rel hq)
+    · rw [if_neg hc]; exact h
+  | put k =>
+    simp only [Arena.step]
+    generalize hq : findH live (k + 1) = q
+    rcases q with _ | ⟨p, sz⟩
+    · exact h
+    · exact h.of_rel (freeReusable_rel s p sz)
+  | reset hard => exact h.reset hard
+
+theorem StaticInv.run {z : Nat} : ∀ (ops : List AOp) (s : State) (live : Live), StaticInv z s →
+    StaticInv z (run ops (s, live)).1 := by
+  intro ops
+  induction ops with
+  | nil => intro s live h; exact h
+  | cons op ops ih =>
+    intro s live h
+    have := h.step live op
+    simp only [Arena.run, List.foldl_cons] at ih ⊢
+    exact ih _ _ this
+
+/-- After any history, a hard reset brings the arena back to the block chain it was initialised with: only
+the static block (if one was given) remains; bump pointer, free lists, dynamic blocks and the live set are
+empty. -/
+theorem reset_hard_restores_init (minBlock staticSize mallocMax : Nat) (ops : List AOp) :
+    let r := run (ops ++ [.reset true]) (init minBlock staticSize mallocMax, [])
+    r.1.blocks = (init minBlock staticSize mallocMax).blocks ∧ r.1.ptr = 0 ∧ r.1.cur = 0 ∧
+    r.1.slots = List.replicate 8 [] ∧ r.1.dyns = [] ∧ r.2 = [] := by
+  have h0 : StaticInv staticSize (init minBlock staticSize mallocMax) := by
+    refine ⟨by simp [Arena.init], fun hz => by simp [Arena.init, hz]⟩
+  have h := h0.run ops _ []
+  simp only [Arena.run, List.foldl_append, List.foldl_cons, List.foldl_nil] at h ⊢
+  generalize List.foldl step (init minBlock staticSize mallocMax, []) ops = r at h
+  rcases r with ⟨s, live⟩
+  have hr := reset_returns_all s live true
+  simp only at hr h ⊢
+  refine ⟨?_, hr.1, hr.2.1, hr.2.2.1, hr.2.2.2.1, hr.2.2.2.2.1⟩
+  rw [hr.2.2.2.2.2 trivial]
+  by_cases hz : staticSize = 0
+  · have : s.hasStatic = false := by simp [h.1, hz]
+    simp [this, Arena.init, hz]
+  · have : s.hasStatic = true := by simp [h.1, hz]
+    simp [this, Arena.init, hz, h.2 hz]
+
+example :
+    (run ([.one 1000, .one 1000, .one 4000, .get 1 5000] ++ [.reset true]) (init 1024 512, [])).1.blocks = [496] := by
+  decide
+
+/-! ### Functional extra: the allocated size covers the request -/
+
+/-- `_alloc_reusable` never reports less than what was asked for (`size` a `size_t` value) -/
+theorem allocReusable_size_le {s : State} {size : Nat} {s' : State} {p : Loc} {asz : Nat}
+    (h : allocReusable s size = (s', some p, asz)) (h0 : 0 < size) (hlt : size < u64) : size ≤ asz := by
+  unfold allocReusable at h
+  by_cases hidx : slotIndex size < kSlotCount
+  · rw [if_pos hidx] at h
+    have hfit := slotIndex_fits size h0 hlt hidx
+    simp only [] at h
+    split at h
+    · cases h; exact hfit
+    · by_cases hrem : s.remaining ≥ slotSize (slotIndex size)
+      · rw [if_pos hrem] at h
+        cases h; exact hfit
+      · rw [if_neg hrem] at h
+        generalize allocOneshotSlow (leftover 64 s s.remaining) (slotSize (slotIndex size)) = q at h
+        rcases q with ⟨s2, _ | p2⟩
+        · simp at h
+        · simp only [Prod.mk.injEq] at h
+          obtain ⟨_, _, rfl⟩ := h
+          exact hfit
+  · rw [if_neg hidx] at h
+    by_cases h1 : size ≥ u64 - 1 - 24
+    · rw [if_pos h1] at h; simp at h
+    · rw [if_neg h1] at h
+      by_cases h2 : size + 24 > s.mallocMax
+      · rw [if_pos h2] at h; simp at h
+      · rw [if_neg h2] at h
+        cases h
+        exact Nat.le_refl _
+
 end AsmjitVerif.Arena
